@@ -38,14 +38,20 @@ var bodyOrder = []string{"u", "uu", "s", "us", "P", "R", "PR", "PuR"}
 var reactions = []string{"none", "follow", "pause", "resume", "pause-resume"}
 
 type rec struct {
-	x        *vexp.X
-	mb       *mailbox.UnboundedMailbox
-	in       int
-	handled  []string
-	reaction string
-	reacted  bool
-	seq      int
-	accepted []string
+	clock          int  // logical time of harness-visible events
+	pauseRet       int  // time the latest Pause() returned (0 = never)
+	resumeCall     int  // time the latest Resume() was invoked
+	lastEnd        int  // time the previous handler invocation ended
+	resumePending  int  // Resume() calls in progress
+	pendingAtPause bool // a Resume() was in progress when the latest Pause() returned
+	x              *vexp.X
+	mb             *mailbox.UnboundedMailbox
+	in             int
+	handled        []string
+	reaction       string
+	reacted        bool
+	seq            int
+	accepted       []string
 }
 
 func (r *rec) HandleEnvelop(e vivid.Envelop) {
@@ -56,6 +62,12 @@ func (r *rec) HandleEnvelop(e vivid.Envelop) {
 	}
 	r.x.Logf("begin %s", id)
 	r.handled = append(r.handled, id)
+	r.clock++
+	if !e.System() && r.pauseRet > 0 && r.resumeCall < r.pauseRet && !r.pendingAtPause && r.lastEnd > r.pauseRet {
+		// Pause() had returned, no Resume() has even been invoked since, and the mailbox looked at
+		// its paused flag after that (it does so after the previous handler ended): u must wait.
+		r.x.Fail("paused-user-waits", "user message %s handled although Pause() had returned (t=%d) before the previous handler ended (t=%d) and no Resume was invoked since", id, r.pauseRet, r.lastEnd)
+	}
 	vrt.Yield()
 	if !e.System() && !r.reacted {
 		r.reacted = true
@@ -63,18 +75,35 @@ func (r *rec) HandleEnvelop(e vivid.Envelop) {
 		case "follow":
 			r.send(false, "h")
 		case "pause":
-			r.mb.Pause()
+			r.pause()
 		case "resume":
-			r.mb.Resume()
+			r.resume()
 		case "pause-resume":
-			r.mb.Pause()
+			r.pause()
 			vrt.Yield()
-			r.mb.Resume()
+			r.resume()
 		}
 	}
 	vrt.Yield()
 	r.x.Logf("end %s", id)
+	r.clock++
+	r.lastEnd = r.clock
 	r.in--
+}
+
+func (r *rec) pause() {
+	r.mb.Pause()
+	r.clock++
+	r.pauseRet = r.clock
+	r.pendingAtPause = r.resumePending > 0
+}
+
+func (r *rec) resume() {
+	r.clock++
+	r.resumeCall = r.clock
+	r.resumePending++
+	r.mb.Resume()
+	r.resumePending--
 }
 
 func (r *rec) send(system bool, from string) {
@@ -98,7 +127,7 @@ func scenario(name string, threads []string, reaction string, initPaused bool, b
 			r := &rec{x: x, reaction: reaction}
 			r.mb = mailbox.NewUnboundedMailbox(2, r)
 			if initPaused {
-				r.mb.Pause()
+				r.pause()
 			}
 			for ti, tn := range threads {
 				b := bodies[tn]
@@ -111,9 +140,9 @@ func scenario(name string, threads []string, reaction string, initPaused bool, b
 						case "s":
 							r.send(true, from)
 						case "P":
-							r.mb.Pause()
+							r.pause()
 						case "R":
-							r.mb.Resume()
+							r.resume()
 						}
 					}
 				})
@@ -127,11 +156,11 @@ func scenario(name string, threads []string, reaction string, initPaused bool, b
 			r.check(paused, "phase1")
 			if paused {
 				// phase 2: resume must release everything that waited
-				r.mb.Resume()
+				r.resume()
 				vrt.Quiesce()
 				if r.mb.IsPaused() {
 					// the handler reaction paused it again; resume once more
-					r.mb.Resume()
+					r.resume()
 					vrt.Quiesce()
 				}
 				r.check(r.mb.IsPaused(), "phase2")
